@@ -17,6 +17,7 @@ import (
 	"os"
 	"sort"
 	"strings"
+	"time"
 
 	"verif/harness/hx"
 
@@ -30,6 +31,15 @@ import (
 
 const N = 6
 const denom = "ukex"
+
+var denomNames = []string{"ukex", "uusd", "uzzz"} // codes 0,1,2 (alphabetical order = code order)
+
+// cn: one coin of an operation
+type cn struct {
+	D string `json:"denom"`
+	A int64  `json:"amount"`
+}
+
 const garbage = "garbage"
 
 // ---------------------------------------------------------------- mock tx (the decorator only needs FeeTx.GetMsgs)
@@ -43,23 +53,14 @@ func (t mockTx) FeePayer() sdk.AccAddress   { return t.msgs[0].GetSigners()[0] }
 func (t mockTx) FeeGranter() sdk.AccAddress { return nil }
 
 // ---------------------------------------------------------------- observed state
-type txObs struct {
-	To     int
-	Amt    int64
-	Pw     string
-	Rew    []int64
-	Votes  uint64
-	Conf   bool
-	rawKey string
-}
 type acctObs struct {
 	Set    string // Coq term: option settings
 	Cust   string
 	Wl     string
 	Lim    string
 	Pool   string
-	Bal    int64
-	Status bool // limit statuses record present (never on the unchanged tree)
+	Bal    [3]int64
+	Status string
 }
 type snapshot struct {
 	A     [N]acctObs
@@ -126,7 +127,7 @@ func (w *world) amap(m map[string]bool) string {
 	return hx.List(xs)
 }
 
-var denomCode = map[string]int64{"ukex": 0, "uusd": 1, "ueth": 2}
+var denomCode = map[string]int64{"ukex": 0, "uusd": 1, "uzzz": 2}
 
 func (w *world) observe(ctx sdk.Context) snapshot {
 	var s snapshot
@@ -181,17 +182,32 @@ func (w *world) observe(ctx sdk.Context) snapshot {
 			for _, k := range ks {
 				r := p.Record[k]
 				t := r.Transaction
-				var rew []string
-				for _, c := range t.Reward {
-					rew = append(rew, hx.ZInt(c.Amount))
-				}
-				xs = append(xs, hx.Pair(hx.Str(w.hashTok(k)), fmt.Sprintf("mkTx %s %s %s %s %s %s", hx.Z(w.code(t.ToAddress)), hx.ZInt(t.Amount.AmountOf(denom)),
-					hx.Str(w.token(t.Password)), hx.List(rew), hx.ZU(r.Votes), hx.B(r.Confirmed))))
+				xs = append(xs, hx.Pair(hx.Str(w.hashTok(k)), fmt.Sprintf("mkTx %s %s %s %s %s %s", hx.Z(w.code(t.ToAddress)), coqSdkCoins(t.Amount),
+					hx.Str(w.token(t.Password)), coqSdkCoins(t.Reward), hx.ZU(r.Votes), hx.B(r.Confirmed))))
 			}
 			o.Pool = "(Some " + hx.List(xs) + ")"
 		}
-		o.Status = ck.GetCustodyLimitsStatusByAddress(ctx, a) != nil
-		o.Bal = w.app.BankKeeper.GetBalance(ctx, a, denom).Amount.Int64()
+		if c := ck.GetCustodyLimitsStatusByAddress(ctx, a); c == nil {
+			o.Status = "None"
+		} else {
+			var ks []string
+			for k := range c.Statuses {
+				ks = append(ks, k)
+			}
+			sort.Slice(ks, func(i, j int) bool { return denomCode[ks[i]] < denomCode[ks[j]] })
+			var xs []string
+			for _, k := range ks {
+				v := c.Statuses[k]
+				if v == nil {
+					v = &custodytypes.CustodyStatus{}
+				}
+				xs = append(xs, hx.Pair(hx.Z(denomCode[k]), hx.Pair(hx.ZU(v.Amount), hx.Z(v.Time))))
+			}
+			o.Status = "(Some " + hx.List(xs) + ")"
+		}
+		for d, name := range denomNames {
+			o.Bal[d] = w.app.BankKeeper.GetBalance(ctx, a, name).Amount.Int64()
+		}
 	}
 	s.Marks = map[string]string{}
 	store := ctx.KVStore(w.app.GetKey(custodytypes.StoreKey))
@@ -230,11 +246,13 @@ func diff(a, b snapshot) []string {
 		if x.Pool != y.Pool {
 			ps = append(ps, fmt.Sprintf("PPool %d %s", i, y.Pool))
 		}
-		if x.Bal != y.Bal {
-			ps = append(ps, fmt.Sprintf("PBal %d %s", i, hx.Z(y.Bal)))
+		for d := range denomNames {
+			if x.Bal[d] != y.Bal[d] {
+				ps = append(ps, fmt.Sprintf("PBal %d %d %s", i, d, hx.Z(y.Bal[d])))
+			}
 		}
-		if y.Status {
-			ps = append(ps, fmt.Sprintf("PStatus %d", i))
+		if x.Status != y.Status {
+			ps = append(ps, fmt.Sprintf("PStatus %d %s", i, y.Status))
 		}
 	}
 	var ks []string
@@ -264,7 +282,9 @@ type op struct {
 	Signer  int      `json:"signer"`
 	Target  int      `json:"target"` // approve/decline/confirm: guarded account; bank: destination
 	To      int      `json:"to"`
-	Amt     int64    `json:"amount,omitempty"`
+	Amt     []cn     `json:"amount,omitempty"`
+	Cap     int64    `json:"limit_amount,omitempty"`
+	Now     int64    `json:"block_time,omitempty"`
 	Adds    []int    `json:"adds,omitempty"`
 	Rem     int      `json:"remove,omitempty"`
 	Denom   string   `json:"denom,omitempty"`
@@ -276,7 +296,7 @@ type op struct {
 	TgtAddr string   `json:"target_address,omitempty"`
 	Hash    string   `json:"hash,omitempty"`
 	Pw      string   `json:"password,omitempty"`
-	Rew     []int64  `json:"reward,omitempty"`
+	Rew     []cn     `json:"reward,omitempty"`
 	TxBytes string   `json:"tx_bytes,omitempty"`
 	Filler  bool     `json:"filler_first,omitempty"`
 	Outcome string   `json:"outcome"`
@@ -311,6 +331,35 @@ func z64list(xs []int64) string {
 }
 
 func coins(a int64) sdk.Coins { return sdk.Coins{sdk.NewInt64Coin(denom, a)} }
+func uk(a int64) []cn         { return []cn{{denom, a}} }
+func ukl(as []int64) []cn {
+	var r []cn
+	for _, a := range as {
+		r = append(r, cn{denom, a})
+	}
+	return r
+}
+func sdkCoins(cs []cn) sdk.Coins {
+	var r sdk.Coins
+	for _, c := range cs {
+		r = append(r, sdk.NewInt64Coin(c.D, c.A))
+	}
+	return r
+}
+func coqCoins(cs []cn) string {
+	var xs []string
+	for _, c := range cs {
+		xs = append(xs, hx.Pair(hx.Z(denomCode[c.D]), hx.Z(c.A)))
+	}
+	return hx.List(xs)
+}
+func coqSdkCoins(cs sdk.Coins) string {
+	var xs []string
+	for _, c := range cs {
+		xs = append(xs, hx.Pair(hx.Z(denomCode[c.Denom]), hx.ZInt(c.Amount)))
+	}
+	return hx.List(xs)
+}
 
 // build returns the sdk.Msg and the Coq term of the operation
 func (w *world) build(o *op, k kp) (sdk.Msg, string) {
@@ -344,22 +393,18 @@ func (w *world) build(o *op, k kp) (sdk.Msg, string) {
 	case "drop_whitelist":
 		return custodytypes.NewMsgDropCustodyWhiteList(sg, k.Old, k.New, k.Next, k.Tgt), fmt.Sprintf("ODropL LWl %d %s", o.Signer, kc)
 	case "add_limits":
-		return custodytypes.NewMsgAddToCustodyLimits(sg, o.Denom, uint64(o.Amt), o.Limit, k.Old, k.New, k.Next, k.Tgt),
-			fmt.Sprintf("OAddLim %d %d %s %s %s", o.Signer, denomCode[o.Denom], hx.Z(o.Amt), hx.Str(o.Limit), kc)
+		return custodytypes.NewMsgAddToCustodyLimits(sg, o.Denom, uint64(o.Cap), o.Limit, k.Old, k.New, k.Next, k.Tgt),
+			fmt.Sprintf("OAddLim %d %d %s %s %s", o.Signer, denomCode[o.Denom], hx.Z(o.Cap), hx.Str(o.Limit), kc)
 	case "remove_limits":
 		return custodytypes.NewMsgRemoveFromCustodyLimits(sg, o.Denom, k.Old, k.New, k.Next, k.Tgt), fmt.Sprintf("ORemLim %d %d %s", o.Signer, denomCode[o.Denom], kc)
 	case "drop_limits":
 		return custodytypes.NewMsgDropCustodyLimits(sg, k.Old, k.New, k.Next, k.Tgt), fmt.Sprintf("ODropLim %d %s", o.Signer, kc)
 	case "custody_send":
-		var rew sdk.Coins
-		for _, r := range o.Rew {
-			rew = append(rew, sdk.NewInt64Coin(denom, r))
-		}
-		m := custodytypes.NewMsgSend(sg, w.addrs[o.To], coins(o.Amt), o.Pw, rew)
+		m := custodytypes.NewMsgSend(sg, w.addrs[o.To], sdkCoins(o.Amt), o.Pw, sdkCoins(o.Rew))
 		h := sha(o.TxBytes)
 		w.hashes[h] = h[:8]
 		o.Hash = h
-		return m, fmt.Sprintf("OSend %d %d %s %s %s %s", o.Signer, o.To, hx.Z(o.Amt), hx.Str(w.token(o.Pw)), z64list(o.Rew), hx.Str(h[:8]))
+		return m, fmt.Sprintf("OSend %d %d %s %s %s %s", o.Signer, o.To, coqCoins(o.Amt), hx.Str(w.token(o.Pw)), coqCoins(o.Rew), hx.Str(h[:8]))
 	case "approve":
 		return custodytypes.NewMsgApproveCustodyTransaction(sg, w.addrs[o.Target], o.Hash), fmt.Sprintf("OApprove %d %d %s", o.Signer, o.Target, hx.Str(w.hashTok(o.Hash)))
 	case "decline":
@@ -368,10 +413,10 @@ func (w *world) build(o *op, k kp) (sdk.Msg, string) {
 		return custodytypes.NewMsgPasswordConfirmTransaction(sg, w.addrs[o.Target], o.Hash, o.Pw),
 			fmt.Sprintf("OConfirm %d %d %s %s %s", o.Signer, o.Target, hx.Str(w.hashTok(o.Hash)), hx.Str(w.token(o.Pw)), hx.Str(w.token(sha(o.Pw))))
 	case "bank_send":
-		return banktypes.NewMsgSend(sg, w.addrs[o.To], coins(o.Amt)), fmt.Sprintf("OBank %d %d %s", o.Signer, o.To, hx.Z(o.Amt))
+		return banktypes.NewMsgSend(sg, w.addrs[o.To], sdkCoins(o.Amt)), fmt.Sprintf("OBank %d %d %s %s", o.Signer, o.To, coqCoins(o.Amt), hx.Z(o.Now))
 	case "multisend":
-		return banktypes.NewMsgMultiSend([]banktypes.Input{banktypes.NewInput(sg, coins(o.Amt))}, []banktypes.Output{banktypes.NewOutput(w.addrs[o.To], coins(o.Amt))}),
-			fmt.Sprintf("OMulti %d %d %s", o.Signer, o.To, hx.Z(o.Amt))
+		return banktypes.NewMsgMultiSend([]banktypes.Input{banktypes.NewInput(sg, sdkCoins(o.Amt))}, []banktypes.Output{banktypes.NewOutput(w.addrs[o.To], sdkCoins(o.Amt))}),
+			fmt.Sprintf("OMulti %d %d %s", o.Signer, o.To, coqCoins(o.Amt))
 	}
 	panic("unknown kind " + o.Kind)
 }
@@ -437,6 +482,7 @@ type hist struct {
 	sendBy []int
 	pws    []string
 	txn    int
+	now    int64 // block time of the next transaction
 }
 
 func secret(i int) string { return fmt.Sprintf("secret-%d", i) }
@@ -463,8 +509,12 @@ func (h *hist) do(o op, k kp) *op {
 	if h.r != nil {
 		o.Filler = h.r.Chance(15)
 	}
+	if h.r != nil && h.r.Chance(30) {
+		h.now += []int64{1, 30, 89, 90, 600, 3599, 3600, 4000}[h.r.Intn(8)]
+	}
+	o.Now = h.now
 	msg, coq := h.w.build(&o, k)
-	h.w.exec(h.ctx, h.deco, &o, msg)
+	h.w.exec(h.ctx.WithBlockTime(time.Unix(h.now, 0).UTC()), h.deco, &o, msg)
 	cur := h.w.observe(h.ctx)
 	code := map[string]int{"ok": 0, "rejected": 1, "panic": 2}[o.Outcome]
 	h.steps = append(h.steps, fmt.Sprintf("(%s, %d, %s)", coq, code, hx.List(diff(h.prev, cur))))
@@ -500,6 +550,9 @@ func (h *hist) keyed(o op, tgt string, right bool, nextAddr string) *op {
 }
 
 func (h *hist) send(s, to int, amt int64, pwi int, rawPw bool, rew []int64) *op {
+	return h.sendc(s, to, uk(amt), pwi, rawPw, ukl(rew))
+}
+func (h *hist) sendc(s, to int, amt []cn, pwi int, rawPw bool, rew []cn) *op {
 	pw := sha(pword(pwi))
 	if rawPw {
 		pw = pword(pwi)
@@ -519,9 +572,11 @@ func (h *hist) decline(f, t int, hash string) *op {
 func (h *hist) confirm(f, t int, hash, pw string) *op {
 	return h.do(op{Kind: "confirm", Signer: f, Target: t, Hash: hash, Pw: pw}, kp{})
 }
-func (h *hist) bank(kind string, s, to int, amt int64) *op {
+func (h *hist) bank(kind string, s, to int, amt int64) *op { return h.bankc(kind, s, to, uk(amt)) }
+func (h *hist) bankc(kind string, s, to int, amt []cn) *op {
 	return h.do(op{Kind: kind, Signer: s, To: to, Amt: amt}, kp{})
 }
+func (h *hist) tick(dt int64) { h.now += dt }
 
 // guard sets up account v by construction: record created disabled, lists filled, then enabled
 func (h *hist) guard(v int, mode uint64, pwd, wl, lim bool, custs, white []int, cap int64) {
@@ -533,7 +588,7 @@ func (h *hist) guard(v int, mode uint64, pwd, wl, lim bool, custs, white []int, 
 		h.keyed(op{Kind: "add_whitelist", Signer: v, Adds: white}, "", true, "")
 	}
 	if cap >= 0 {
-		h.keyed(op{Kind: "add_limits", Signer: v, Denom: denom, Amt: cap, Limit: "1h"}, "", true, "")
+		h.keyed(op{Kind: "add_limits", Signer: v, Denom: denom, Cap: cap, Limit: "1h"}, "", true, "")
 	}
 	h.keyed(op{Kind: "create_custody", Signer: v, Set: []uint64{1, mode, b2u(pwd), b2u(wl), b2u(lim)}}, "", true, "")
 }
@@ -556,7 +611,7 @@ func settingOp(kind string, signer int) op {
 	case "remove_whitelist":
 		o.Rem = 5
 	case "add_limits":
-		o.Denom, o.Amt, o.Limit = denom, 999999, "1h"
+		o.Denom, o.Cap, o.Limit = denom, 999999, "1h"
 	case "remove_limits":
 		o.Denom = denom
 	}
@@ -565,7 +620,38 @@ func settingOp(kind string, signer int) op {
 
 // ---- directed histories: every settings message type x every way of naming the guarded account;
 // every order of approve / decline / confirm by custodians and strangers; every send path
-func directed(newHist func(label string) *hist, finish func(*hist)) {
+type variant struct{ custOnly, lower, pwd, nilmap, limits bool }
+
+// probe: one short history per repaired place, on the real code
+func probe(newHist func(label string) *hist) variant {
+	var v variant
+	V := 0
+	h := newHist("probe")
+	h.guard(V, 100, false, false, false, []int{2, 3}, nil, -1)
+	x := h.send(V, 5, 1000, 1, false, []int64{400}).Hash
+	v.custOnly = h.approve(4, V, x).Outcome == "rejected"
+	h = newHist("probe")
+	h.guard(V, 100, false, false, false, []int{2, 3}, nil, -1)
+	x = h.send(V, 5, 1000, 1, false, []int64{400}).Hash
+	h.approve(2, V, x)
+	before := h.prev
+	h.approve(2, V, upperVariant(x))
+	v.lower = len(diff(before, h.prev)) == 0
+	h = newHist("probe")
+	h.guard(V, 100, true, false, false, []int{2, 3}, nil, -1)
+	x = h.send(V, 5, 1000, 1, true, []int64{400}).Hash
+	v.pwd = h.confirm(4, V, x, "wrong-pw").Outcome == "rejected"
+	h = newHist("probe")
+	h.keyed(op{Kind: "create_custody", Signer: V, Set: []uint64{0, 50, 0, 0, 0}}, "", true, "")
+	h.keyed(op{Kind: "add_whitelist", Signer: V, Adds: []int{}}, "", true, "")
+	v.nilmap = h.keyed(op{Kind: "add_whitelist", Signer: V, Adds: []int{5}}, "", true, "").Outcome == "ok"
+	h = newHist("probe")
+	h.guard(V, 50, false, false, true, []int{}, nil, 1000)
+	v.limits = h.bank("bank_send", V, 5, 100).Outcome == "ok"
+	return v
+}
+
+func directed(newHist func(label string) *hist, finish func(*hist), vr variant) {
 	V, A := 0, 1
 	for _, kind := range settingKinds {
 		for _, how := range []string{"self_wrong", "self_right", "t_norec", "t_disabled", "t_next", "t_other"} {
@@ -658,6 +744,49 @@ func directed(newHist func(label string) *hist, finish func(*hist)) {
 			}
 		}
 	}
+	for sc := 0; sc < 4; sc++ { // the limit path of the decorator (live only on the repaired variant)
+		h := newHist(fmt.Sprintf("limits/%d", sc))
+		switch sc {
+		case 0: // a window of one hour, limit 1000: sums inside the window, a new window afterwards
+			h.guard(V, 50, false, false, true, []int{}, nil, 1000)
+			h.bank("bank_send", V, 5, 600)
+			h.tick(10)
+			h.bank("bank_send", V, 5, 400)
+			h.bank("bank_send", V, 5, 1)
+			h.tick(3589)
+			h.bank("bank_send", V, 5, 1)
+			h.tick(1)
+			h.bank("bank_send", V, 5, 1000)
+			h.bank("bank_send", V, 5, 1001)
+		case 1: // two denominations, the limit is on the second coin of the message
+			h.keyed(op{Kind: "create_custody", Signer: V, Set: []uint64{0, 50, 0, 0, 1}}, "", true, "")
+			h.keyed(op{Kind: "add_limits", Signer: V, Denom: "uusd", Cap: 100, Limit: "90s"}, "", true, "")
+			h.bankc("bank_send", V, 5, []cn{{"ukex", 5}, {"uusd", 101}})
+			h.bankc("bank_send", V, 5, []cn{{"ukex", 5}, {"uusd", 100}})
+			h.bankc("bank_send", V, 5, []cn{{"uusd", 1}})
+			h.bankc("multisend", V, 5, []cn{{"uusd", 5000}})
+			h.tick(90)
+			h.bankc("bank_send", V, 5, []cn{{"uusd", 100}, {"uzzz", 1}})
+		case 2: // unparsable / zero durations, removed limit
+			h.keyed(op{Kind: "create_custody", Signer: V, Set: []uint64{0, 50, 0, 0, 1}}, "", true, "")
+			h.keyed(op{Kind: "add_limits", Signer: V, Denom: "ukex", Cap: 100, Limit: "bad"}, "", true, "")
+			h.bank("bank_send", V, 5, 1)
+			h.keyed(op{Kind: "add_limits", Signer: V, Denom: "ukex", Cap: 100, Limit: "0s"}, "", true, "")
+			h.bank("bank_send", V, 5, 1)
+			h.keyed(op{Kind: "remove_limits", Signer: V, Denom: "ukex"}, "", true, "")
+			h.bank("bank_send", V, 5, 5000)
+			h.keyed(op{Kind: "drop_limits", Signer: V}, "", true, "")
+			h.bank("bank_send", V, 5, 5000)
+		case 3: // limits together with the whitelist; insufficient funds after the decorator passed
+			h.guard(V, 50, false, true, true, []int{}, []int{5}, 100000)
+			h.bank("bank_send", V, 4, 10)
+			h.bank("bank_send", V, 5, 10)
+			h.bankc("bank_send", V, 5, []cn{{"uzzz", 1000}})
+			h.bank("bank_send", V, 5, 99990)
+			h.bank("bank_send", V, 5, 1)
+		}
+		finish(h)
+	}
 	for sc := 0; sc < 5; sc++ {
 		h := newHist(fmt.Sprintf("paths/%d", sc))
 		switch sc {
@@ -702,6 +831,19 @@ func directed(newHist func(label string) *hist, finish func(*hist)) {
 	}
 }
 
+// rndCoins: mostly the default denomination alone, sometimes a second one or another one alone
+func rndCoins(g *hx.Rng, a int64) []cn {
+	switch g.Intn(10) {
+	case 0, 1:
+		return []cn{{"ukex", a}, {"uusd", []int64{1, 70, 3000}[g.Intn(3)]}}
+	case 2:
+		return []cn{{"uusd", a}}
+	case 3:
+		return []cn{{"uusd", a}, {"uzzz", 5}}
+	}
+	return uk(a)
+}
+
 // ---- random histories
 func random(h *hist) {
 	g, w := h.r, h.w
@@ -730,6 +872,9 @@ func random(h *hist) {
 			cs = nil
 		}
 		h.guard(owner, mode, usePw, useWl, useLim, cs, white, cap)
+	}
+	if g.Chance(15) { // accounts with limits but no custodians: the limit path of the decorator
+		h.guard(other, 50, false, g.Chance(30), true, []int{}, []int{5, owner}, []int64{100, 1000, 100000}[g.Intn(3)])
 	}
 	if g.Chance(25) { // the other owner has a custody of its own, possibly naming the first owner as next controller
 		next := ""
@@ -784,7 +929,7 @@ func random(h *hist) {
 			if g.Chance(4) {
 				rew = nil
 			}
-			h.send(s, []int{5, 5, other, 4, 2}[g.Intn(5)], []int64{1, 50, 500, 2000, 150000, 999999, 2000000}[g.Intn(7)], g.Intn(12), g.Chance(10), rew)
+			h.sendc(s, []int{5, 5, other, 4, 2}[g.Intn(5)], rndCoins(g, []int64{1, 50, 500, 2000, 150000, 999999, 2000000}[g.Intn(7)]), g.Intn(12), g.Chance(10), ukl(rew))
 		case x < 46:
 			x, t := pickHash()
 			h.approve(who(), t, x)
@@ -807,13 +952,13 @@ func random(h *hist) {
 			if g.Chance(15) {
 				s = g.Intn(N)
 			}
-			h.bank("bank_send", s, []int{5, other, 4, 2}[g.Intn(4)], []int64{1, 50, 500, 2000, 150000}[g.Intn(5)])
+			h.bankc("bank_send", s, []int{5, other, 4, 2}[g.Intn(4)], rndCoins(g, []int64{1, 50, 500, 2000, 150000}[g.Intn(5)]))
 		case x < 77:
 			s := owner
 			if g.Chance(15) {
 				s = g.Intn(N)
 			}
-			h.bank("multisend", s, []int{5, other, 4}[g.Intn(3)], []int64{1, 50, 500, 2000, 150000}[g.Intn(5)])
+			h.bankc("multisend", s, []int{5, other, 4}[g.Intn(3)], rndCoins(g, []int64{1, 50, 500, 2000, 150000}[g.Intn(5)]))
 		default: // settings change: by the owner (right / wrong key), by a stranger or the other owner naming the owner as target
 			signer, tgt := owner, ""
 			switch g.Intn(10) {
@@ -833,7 +978,7 @@ func random(h *hist) {
 			case "remove_custodians", "remove_whitelist":
 				o.Rem = []int{2, 3, 4, 5}[g.Intn(4)]
 			case "add_limits":
-				o.Denom, o.Amt, o.Limit = []string{"ukex", "uusd"}[g.Intn(2)], []int64{0, 100, 100000}[g.Intn(3)], []string{"1h", "", "bad"}[g.Intn(3)]
+				o.Denom, o.Cap, o.Limit = []string{"ukex", "uusd"}[g.Intn(2)], []int64{0, 100, 100000}[g.Intn(3)], []string{"1h", "90s", "0s", "", "bad"}[g.Intn(5)]
 			case "remove_limits":
 				o.Denom = []string{"ukex", "uusd"}[g.Intn(2)]
 			}
@@ -874,13 +1019,14 @@ func main() {
 	w.tok[sha("wrong-secret")] = "Kx"
 	w.tok[sha("wrong-pw")] = "Px"
 	w.tok["wrong-pw"] = "px"
-	bals0 := []int64{1000000, 1000000, 5000, 5000, 300, 0, 1000000, 0}
+	bals0 := [][]cn{{{"ukex", 1000000}, {"uusd", 50000}, {"uzzz", 100}}, {{"ukex", 1000000}, {"uusd", 50000}}, {{"ukex", 5000}}, {{"ukex", 5000}},
+		{{"ukex", 300}}, {}, {{"ukex", 1000000}}, {}}
 	for i, b := range bals0 {
-		if b > 0 {
-			if err := app.BankKeeper.MintCoins(base, minttypes.ModuleName, coins(b)); err != nil {
+		if len(b) > 0 {
+			if err := app.BankKeeper.MintCoins(base, minttypes.ModuleName, sdkCoins(b)); err != nil {
 				panic(err)
 			}
-			if err := app.BankKeeper.SendCoinsFromModuleToAccount(base, minttypes.ModuleName, w.addrs[i], coins(b)); err != nil {
+			if err := app.BankKeeper.SendCoinsFromModuleToAccount(base, minttypes.ModuleName, w.addrs[i], sdkCoins(b)); err != nil {
 				panic(err)
 			}
 		}
@@ -893,7 +1039,7 @@ func main() {
 	var js []interface{}
 	newHist := func(label string) *hist {
 		ctx, _ := base.CacheContext()
-		h := &hist{w: w, ctx: ctx, deco: deco, dist: dist, id: len(cases), label: label}
+		h := &hist{w: w, ctx: ctx, deco: deco, dist: dist, id: len(cases), label: label, now: 1700000000}
 		for i := range h.sec {
 			h.sec[i] = -1
 		}
@@ -901,15 +1047,23 @@ func main() {
 		return h
 	}
 	finish := func(h *hist) {
-		cases = append(cases, fmt.Sprintf("C17 %s %s", z64list(bals0[:N]), hx.List(h.steps)))
+		var bs []string
+		for _, b := range bals0[:N] {
+			bs = append(bs, coqCoins(b))
+		}
+		cases = append(cases, fmt.Sprintf("C17 %s %s", hx.List(bs), hx.List(h.steps)))
 		js = append(js, map[string]interface{}{"history": h.id, "label": h.label, "initial_balances": bals0[:N],
 			"accounts": "0,1 owners; 2,3,(4) custodians; 4,5 strangers/destinations; 6,7 filler", "ops": h.ops})
 		dist.Inc(fmt.Sprintf("history_len:%02d", len(h.ops)/5*5))
 	}
-	directed(newHist, finish)
+	// ---- which variant of the five repaired places does this tree implement? (probe transactions)
+	vr := probe(newHist)
+	dist = hx.Counter{}
+	newHist2 := func(label string) *hist { h := newHist(label); h.dist = dist; return h }
+	directed(newHist2, finish, vr)
 	nd := len(cases)
 	for hi := 0; hi < *n; hi++ {
-		h := newHist("random")
+		h := newHist2("random")
 		h.r = r.Fork()
 		random(h)
 		finish(h)
@@ -919,10 +1073,12 @@ func main() {
 	f.WriteString("(* written by /verif/harness/cmd/c17 -- observations of the real code *)\n")
 	f.WriteString("From Sekai Require Import Base.Prelude Model.Custody Model.C17Check.\n")
 	f.WriteString(fmt.Sprintf("Definition minrew : Z := %d.\n", minrew))
+	f.WriteString(fmt.Sprintf("Definition c17_variant : variant := mkV %s %s %s %s %s.\n", hx.B(vr.custOnly), hx.B(vr.lower), hx.B(vr.pwd), hx.B(vr.nilmap), hx.B(vr.limits)))
 	out.WriteFile("pre.v", f.String())
 	out.WriteFile("cases.txt", strings.Join(cases, "\n")+"\n")
-	out.WriteJSON("meta.json", map[string]string{"case_type": "c17_case", "mismatch_fn": "c17_mismatches minrew", "violation_fn": "c17_violations"})
+	out.WriteJSON("meta.json", map[string]string{"case_type": "c17_case", "mismatch_fn": "c17_mismatches c17_variant minrew", "violation_fn": "c17_violations"})
 	out.WriteJSON("cases.json", js)
-	out.WriteJSON("dist.json", map[string]interface{}{"seed": seed, "histories": len(js), "directed": nd, "random": *n, "by_kind_and_outcome": dist})
+	out.WriteJSON("dist.json", map[string]interface{}{"seed": seed, "histories": len(js), "directed": nd, "random": *n, "by_kind_and_outcome": dist,
+		"variant": map[string]bool{"votes_by_custodians_only": vr.custOnly, "vote_key_lowercase": vr.lower, "password_compared": vr.pwd, "empty_map_assignment_ok": vr.nilmap, "limits_window": vr.limits}})
 	fmt.Fprintf(os.Stderr, "c17: %d histories\n", len(js))
 }
